@@ -14,7 +14,9 @@ NCPU = os.cpu_count() or 4
 STD_AXIOMS = {"propext", "Classical.choice", "Quot.sound"}
 
 SAN_FLAGS = {
-    "asan": ["-O1", "-g", "-fsanitize=address,undefined", "-fno-sanitize-recover=undefined",
+    # enum: loads of out-of-range values into libtins' option-type enums (every TLV parser stores the wire code in an
+    # enum-typed field) are excluded — see DESIGN.md "UB scope"; everything else of UBSan is on.
+    "asan": ["-O1", "-g", "-fsanitize=address,undefined", "-fno-sanitize=enum", "-fno-sanitize-recover=undefined",
              "-fno-omit-frame-pointer"],
     "tsan": ["-O1", "-g", "-fsanitize=thread"],
     "plain": ["-O1", "-g"],
@@ -65,7 +67,7 @@ def _run(cmd, **kw):
 def build_impl(san="asan"):
     """Compile every libtins source of /repo's working tree (hooks on) into a static library.
     Cached per content hash of include/ + src/.  Returns (libpath, None) or (None, error text)."""
-    hh = repo_hash()
+    hh = repo_hash() + hashlib.md5(" ".join(SAN_FLAGS[san]).encode()).hexdigest()[:4]
     bdir = os.path.join(WORK, "build", f"{hh}-{san}")
     lib = os.path.join(bdir, "libtins_verif.a")
     with Lock(f"build-{san}"):
@@ -328,10 +330,16 @@ class Check:
         ok, text = lake_build(modules + ["tinsdriver"])
         hits = grep_forbidden()
         thms, err = ({}, "not run")
+        audit_files = [audit_file] if isinstance(audit_file, str) else list(audit_file)
         if ok:
-            thms, err = audit_axioms(audit_file)
+            thms, err = {}, None
+            for af in audit_files:
+                t, e = audit_axioms(af)
+                thms.update(t)
+                if e:
+                    err = (err or "") + f"{af}: {e}\n"
         self.theorems = thms
-        self.obligations = max(len(thms), self._count_expected(audit_file))
+        self.obligations = max(len(thms), sum(self._count_expected(af) for af in audit_files))
         bad = []
         for name, axs in thms.items():
             extra = [a for a in axs if a not in STD_AXIOMS and a not in allowed_extra_axioms]
@@ -375,7 +383,7 @@ class Check:
         cov["samples"] = cov["samples"][:8] or ["(none)"]
         cov.update({
             "obligations": self.obligations, "discharged": self.discharged,
-            "checker_cmd": checker_cmd or f"cd /verif/lean && lake build TinsModel.Props.{self.pid} && lake env lean Audit/{self.pid}.lean",
+            "checker_cmd": checker_cmd or self.extra.pop("checker_cmd", None) or f"cd /verif/lean && lake build TinsModel.Props.{self.pid} && lake env lean Audit/{self.pid}.lean",
             "trusted_base": self.trusted,
             "theorems": {k: v for k, v in sorted(self.theorems.items())},
             "known_findings_hit": sorted(self.known_hits),
